@@ -3,6 +3,7 @@ import atexit
 import fcntl
 import hashlib
 import json
+import hashlib
 import os
 import random
 import shutil
@@ -181,7 +182,7 @@ class Proc:
 
     def start(self):
         self.p = subprocess.Popen(self.argv, stdin=subprocess.PIPE, stdout=subprocess.PIPE, stderr=subprocess.DEVNULL,
-                                  env=self.env, cwd=self.cwd, bufsize=0)
+                                  env=self.env, cwd=self.cwd, bufsize=-1)
 
     def ask(self, line):
         try:
